@@ -330,6 +330,24 @@ def c16_refs(state, cfg, case):
     rr = md.render(r)
     if rr + seeded != onego and seeded != onego:
         fails.append({"what": f"render(D, env seeded by R) != render(R + blank + D): {seeded[:80]!r} vs {onego[:80]!r}", "key": "C16/seed"})
+    # a document consisting only of well-formed definitions renders to nothing, and each recorded map starts at a
+    # line that opens a definition and the maps tile the document
+    if r and all(l.startswith("[") or not l.startswith(("[", ">", "-")) for l in r.split("\n")) and r.count("]:") == len(re.findall(r"^\[", r, flags=re.M)) and "not a def" not in r:
+        if md.render(r).strip():
+            fails.append({"what": f"definitions-only document {r!r} leaves output {md.render(r)[:60]!r}", "key": "C16/def-lines"})
+        er: dict = {}
+        md.parse(r, er)
+        maps = sorted([v["map"] for v in (er.get("references") or {}).values()] + [x["map"] for x in (er.get("duplicate_refs") or [])])
+        nl = r.count("\n")
+        pos = 0
+        for m in maps:
+            if m[0] != pos:
+                fails.append({"what": f"definition maps {maps} do not tile the {nl} lines of {r!r}", "key": "C16/def-maps"})
+                break
+            pos = m[1]
+        else:
+            if maps and pos != nl:
+                fails.append({"what": f"definition maps {maps} do not cover the {nl} lines of {r!r}", "key": "C16/def-maps"})
     # every definition in the source recorded exactly once, first wins
     e2: dict = {}
     md.parse(r + "\n" + d, e2)
@@ -426,7 +444,8 @@ def _struct(toks):
         verbatim = t.type in ("code_block", "fence", "html_block")
         kids = []
         for c in t.children or []:
-            kids.append((c.type, c.content if c.type not in ("code_inline",) else None, c.markup))
+            # a tab that is not structural (inside paragraph text) legitimately stays a tab: compare text modulo blank runs
+            kids.append((c.type, re.sub(r"[ \t]+", " ", c.content) if c.type not in ("code_inline",) else None, c.markup))
         out.append((t.type, t.tag, t.nesting, t.level, tuple(t.map) if t.map else None, t.markup, t.info, tuple(sorted((t.attrs or {}).items())),
                     None if (verbatim or t.type == "inline") else t.content, tuple(kids)))
     return out
@@ -474,6 +493,45 @@ def c17_marker_tabs(state, cfg, case):
     if _struct(a) != _struct(b):
         fails.append({"what": f"tab after marker vs spaces parse differently: {tb!r} vs {sp!r}", "key": "C17/marker-tabs"})
     return {"sig": tok_sig(b), "fail": fails}
+
+
+def c17_twoline(state, cfg, case):
+    """case = (first_line, segs, leaf): second line of a container opened on the first line, tab vs spaces after markers"""
+    first, segs, leaf = case
+    md = _md(state, cfg)
+    sp = tb = ""
+    col = 0
+    for ind, marker, blanks in segs:
+        sp += " " * ind + marker
+        tb += " " * ind + marker
+        col += ind + len(marker)
+        end = col + blanks
+        sp += " " * blanks
+        tb += "\t" if (end % 4 == 0 and blanks <= 4) else " " * blanks
+        col = end
+    a = first + "\n" + tb + leaf + "\n"
+    b = first + "\n" + sp + leaf + "\n"
+    if a == b:
+        return None
+    ta, tb_ = md.parse(a), md.parse(b)
+    fails = []
+    if _struct(ta) != _struct(tb_):
+        fails.append({"what": f"tab after marker on a continuation line vs spaces parse differently: {a!r} vs {b!r}", "key": "C17/marker-tabs-2"})
+    return {"sig": tok_sig(tb_), "fail": fails}
+
+
+def c17_twoline_cases():
+    import itertools
+
+    firsts = [">>", "> > a", "> a", "> - a", "- a", ">", "> 1. a"]
+    segs1 = [(i, m, b) for i in (0, 1) for m in (">", "-", "1.") for b in range(1, 5)]
+    cases = []
+    for f in firsts:
+        for n in (1, 2):
+            for combo in itertools.product(segs1, repeat=n):
+                for leaf in ("foo", "- b"):
+                    cases.append((f, combo, leaf))
+    return cases
 
 
 def c17_marker_cases():
@@ -820,6 +878,17 @@ def gen_c07(tier):
     A = [d for d in U.docs_k(2) if d.endswith("\n")]
     if tier == "quick":
         B = [l + "\n" for l in U.V if l and l[0] not in " \t"]
+        small = [l for l in U.V if l and l[0] not in " \t"]
+        for a in U.V:
+            if not a:
+                continue
+            for b1 in small:
+                for b2 in U.V:
+                    yield (a + "\n", b1 + "\n" + b2 + "\n")
+        for a1 in ("a", "# h", "- x"):
+            for b1 in ("a|b", "| a | b |"):
+                for b3 in U.V:
+                    yield (a1 + "\n", b1 + "\n-|-\n" + b3 + "\n")
     else:
         small = [l for l in U.V if l and l[0] not in " \t"]
         B = [l + "\n" for l in small] + [a + "\n" + b + "\n" for a in small for b in U.V[:40]]
@@ -845,9 +914,9 @@ def gen_c16_refs(tier):
 def gen_c16_form(tier):
     texts = ["x", "*e*", "a\\]b", "`c`", "[n]", "a &amp; b", "![i](/s)", "x\ny"]
     dests = ["/u", "<a b>", "/a(b)c", "/a\\)b", "http://é.x/ü", "/q?a=1&amp;b=2", "<>", "/x%20y", "javascript:x", "/a_b*c*"]
-    titles = ["", "'t'", "\"a \\\" b\"", "(p)", "'multi\nline'", "'&amp; \\*'"]
+    titles = ["", "'t'", "\"a \\\" b\"", "(p)", "\"hard\\\nbreak\"", "'multi\nline'", "'&amp; \\*'", "\"C\\:\\\\dir\\\\\""]
     if tier == "quick":
-        dests, titles = dests[:8], titles[:4]
+        dests = dests[:8]
     for img in (False, True):
         for t in texts:
             for d in dests:
